@@ -16,7 +16,9 @@ RULE = ('family = one generated pipeline with a prefetch / parallel-map stage; '
         'Every 40th family is systematic instead: a tiny workload (n <= 3, workers <= 2, '
         'buffer <= 2) with one stop point, run under the non-preemptive baseline schedule '
         'and under ALL schedules that differ from it by exactly one forced context '
-        'switch (or fired timeout) at any decision point.')
+        'switch (or fired timeout) at any decision point; in the thorough tier every '
+        '2000th family enumerates all schedules with at most TWO forced switches of a '
+        'n=2 workload.')
 PROBES = ['all_single_preemption_schedules_of_a_tiny_workload',
           'future_cancelled_while_pending', 'user_code_between_stop_and_return',
           'stop_before_first_example']
@@ -31,9 +33,16 @@ STRICT_SCHED = {'policy': 'phased', 'params': {'phases': {
     'default': {'policy': 'random'}}}}
 
 
-def gen_systematic(rng):
-    """Tiny workload, one stop point, ALL schedules with one forced switch."""
+def gen_systematic(rng, two=False):
+    """Tiny workload, one stop point, ALL schedules with one forced switch
+    (two=True, thorough tier: with at most two, for the very smallest)."""
     desc = parprops.tiny_desc(rng)
+    if two:
+        desc = {'source': {'kind': 'list', 'n': 2}, 'stages': [
+            {'op': 'map', 'id': 'u0'},
+            rng.choice([{'op': 'prefetch', 'w': 1, 'b': 1, 'backend': 't'},
+                        {'op': 'prefetch', 'w': 2, 'b': 2, 'backend': 't'},
+                        {'op': 'parmap', 'id': 'p', 'w': 1, 'b': 1, 'backend': 't'}])]}
     n = desc['source']['n']
     kind = rng.choice(['close', 'drop', 'cycle_gc', 'exhaust'])
     base = {'desc': desc, 'epochs': 1, 'faults': [], 'cost_seed': None, 'think_seed': 0,
@@ -43,10 +52,15 @@ def gen_systematic(rng):
     if rng.random() < 0.3:
         base['faults'] = [{'stage': 'u0', 'pos': rng.randrange(n),
                            'exc': rng.choice(['value', 'base'])}]
+    if two:
+        base['systematic'] = 2
+        return parprops.two_preemption_cases(base, parrun.run_par_case)
     return parprops.one_preemption_cases(base, parrun.run_par_case)
 
 
 def gen(rng, tier, index):
+    if tier == 'thorough' and index % 2000 == 1999:
+        return gen_systematic(rng, two=True)
     if index % 40 == 39:
         return gen_systematic(rng)
     strict = rng.random() < 0.5
@@ -84,6 +98,8 @@ def gen(rng, tier, index):
 def run(case):
     res = parrun.run_par_case(case)
     out = parprops.base_outcome(case, res)
+    if case.get('systematic') == 2:
+        out['fired']['systematic_two_preemptions'] = 1
     if case.get('systematic'):
         out['fired']['systematic_one_preemption'] = 1
         out['probes']['all_single_preemption_schedules_of_a_tiny_workload'] = 1
